@@ -44,7 +44,7 @@ ASSUMPTIONS = [
 REQUIRED = {"stratum:locality": 20, "stratum:potential": 20, "route:text": 40, "route:api": 40,
             "checked:deriv": 100, "checked:deriv2": 60, "leaf:custom": 10, "leaf:table": 5,
             "mod:product": 10, "mod:pow": 5, "mod:trans": 10, "mod:spline": 5, "at_zero": 10,
-            "stratum:table_slope": 10, "checked:table_slope": 200, "potential:near_origin": 10}
+            "leafkind:units": 15, "stratum:table_slope": 10, "checked:table_slope": 200, "potential:near_origin": 10}
 
 
 @st.composite
@@ -84,6 +84,19 @@ def _expr_case(draw, depth, kind):
         pd = _open_left(pd)
         rs = rs[:4] + [0.0, draw(gen.fl(-1.0, 0.0))]
     return {"kind": "expr", "leafkind": kind, "env": {"custom": customs, "table": tables}, "pd": pd, "rs": rs}
+
+
+@st.composite
+def _units_case(draw, name):
+    """a built-in form in other units (energies x 10^e, lengths x 10^l): parameters and separations of extreme
+    but valid magnitude; the derivatives offered scale as E/L and E/L^2"""
+    e, l = draw(st.sampled_from([(-19, -10), (0, -10), (-19, 0), (3, 1), (-25, -8), (12, 2), (20, -6), (-6, 8)]))
+    p = gen.rescale(name, draw(gen.form_params(name)), e, l)
+    L = 10.0 ** l
+    rs = [r * L for r in draw(st.lists(gen.fl(0.05, 30.0), min_size=5, max_size=8))]
+    pd = {"ranges": [{"m": None, "s": None, "body": {"k": "form", "name": name, "p": p}}]}
+    return {"kind": "expr", "leafkind": "units", "env": {"custom": [], "table": []}, "pd": pd, "rs": rs, "lscale": L,
+            "escale": 10.0 ** e}
 
 
 def _open_left(pd):
@@ -156,7 +169,7 @@ def strata(tier):
         ("locality", _locality_case(), 2), ("potential", _potential_case(), 2),
         ("potential_near_origin", _potential_origin_case(), 1),
         ("table_slope", _slope_case(), 1),
-    ]
+    ] + [("expr:units:" + f, _units_case(f), 0.2) for f in gen.UNIT_FORMS if f != "zero"]
 
 
 def budget(tier):
@@ -171,7 +184,7 @@ def _tol(en, extra=0.0):
     return 256 * EPS * en.e + 2 * en.u + extra + 1e-300
 
 
-def _check_fn(f, route, pd, ref, rs, v, cls, stats, text):
+def _check_fn(f, route, pd, ref, rs, v, cls, stats, text, lscale=1.0):
     for r in rs:
         try:
             j, tr = model.evaluate(ref, pd, r, order=2)
@@ -183,11 +196,11 @@ def _check_fn(f, route, pd, ref, rs, v, cls, stats, text):
             continue
         # "where it is differentiable ... away from range boundaries": same piecewise
         # decisions (ranges, spline regions, if/min/max/abs branches) on both sides of r
-        if not model.same_piece(ref, pd, r, 1e-5):
+        if not model.same_piece(ref, pd, r, 1e-5 * lscale):
             stats["at_boundary_skipped"] = stats.get("at_boundary_skipped", 0) + 1
             continue
         # choose a stencil that stays inside one piece of the definition
-        h = 0.01 * r if r > 0 else 0.01
+        h = 0.01 * r if r > 0 else 0.01 * lscale
         ok_piece = False
         for _ in range(6):
             if r - 4.5 * h > -1e9 and model.same_piece(ref, pd, r, 4.5 * h) and model.same_piece(ref, pd, r, 2.0 * h):
@@ -271,7 +284,7 @@ def _check_expr(case):
     try:
         f_api = build_api.Builder(env).potdef(pd)
         cls.append("route:api")
-        _check_fn(f_api, "api", pd, ref, rs, v, cls, stats, render.potdef_text(pd))
+        _check_fn(f_api, "api", pd, ref, rs, v, cls, stats, render.potdef_text(pd), case.get("lscale", 1.0))
     except DomainError:
         pass
     except Exception as e:
@@ -284,7 +297,7 @@ def _check_expr(case):
         try:
             f_txt = libroute.functions(libroute.read_text(txt))["pair:A-B"]
             cls.append("route:text")
-            _check_fn(f_txt, "text", pd, ref, rs, v, cls, stats, txt)
+            _check_fn(f_txt, "text", pd, ref, rs, v, cls, stats, txt, case.get("lscale", 1.0))
         except Exception as e:
             v.append(("text:build:exception:%s@%s" % (type(e).__name__, libroute.innermost_atsim_frame(e)),
                       "%r\n%s" % (e, txt)))
